@@ -12,8 +12,12 @@ structure Comp where
   Ev : Type
   /-- initial state from the tokens of the `cfg` line (after the component name) -/
   init : List String → Option St
+  /-- driver-side auxiliary state threaded through the parser (e.g. a shadow copy of plain fields
+  rebuilt from `pst` events so that their values can be attached to the next release event) -/
+  Aux : Type
+  aux0 : Aux
   /-- `none` = not an event of this component (reject); `some none` = stutter (skipped) -/
-  parse : List String → Option (Option Ev)
+  parse : Aux → Tid → List String → Aux × Option (Option Ev)
   step : St → Tid → Ev → Option St
   /-- coverage key of an accepted step -/
   edge : St → Tid → Ev → String
@@ -27,6 +31,7 @@ def toks (line : String) : List String :=
 
 structure RunState (c : Comp) where
   st : Option c.St := none
+  aux : c.Aux := c.aux0
   nev : Nat := 0
   rejected : Option String := none
 
@@ -70,17 +75,18 @@ partial def loop (c : Comp) (h : IO.FS.Stream) (hdr : String) (rs : RunState c) 
           match rs.st with
           | none => loop c h hdr { rs with rejected := some "event-before-cfg" } tot
           | some s =>
-            match c.parse rest with
+            let (aux', pe) := c.parse rs.aux tid rest
+            match pe with
             | none =>
                 loop c h hdr { rs with rejected := some s!"line={rs.nev} unknown-event '{line.trimAscii}' at {c.descr s tid}" } tot
-            | some none => loop c h hdr { rs with nev := rs.nev + 1 } tot
+            | some none => loop c h hdr { rs with nev := rs.nev + 1, aux := aux' } tot
             | some (some e) =>
               match c.step s tid e with
               | none =>
                   loop c h hdr { rs with rejected := some s!"line={rs.nev} not-allowed '{line.trimAscii}' at {c.descr s tid}" } tot
               | some s' =>
                   let k := c.edge s tid e
-                  loop c h hdr { rs with st := some s', nev := rs.nev + 1 } { tot with covered := addCov tot.covered k }
+                  loop c h hdr { rs with st := some s', nev := rs.nev + 1, aux := aux' } { tot with covered := addCov tot.covered k }
 
 def runComp (c : Comp) : IO UInt32 := do
   let stdin ← IO.getStdin
